@@ -326,6 +326,59 @@ class NpShim:
             return x
         return np.float64(x)
 
+    # np.frexp / np.ldexp (power-of-two scaling). The exponent is concrete (decided on the concrete value and
+    # logged as the two comparisons 2^(e-1) <= |x| < 2^e, so it is part of the path); ldexp by a concrete integer
+    # is a multiplication by the constant 2^k.
+    def _frexp1(self, x):
+        if not isinstance(x, Sym):
+            m, e = math.frexp(float(x))
+            return m, e
+        if x == 0:
+            return x, 0
+        e = 0
+        v = abs(x.v)
+        while v >= 1:
+            v /= 2
+            e += 1
+        while v < Fraction(1, 2):
+            v *= 2
+            e -= 1
+        two = Fraction(2)
+        ax = abs(x)
+        if not (ax >= self._t.const(two ** (e - 1))) or not (ax < self._t.const(two ** e)):
+            raise TraceError("frexp: inconsistent exponent")
+        return x * self._t.const(two ** (-e)), e
+
+    def frexp(self, x, *a, **kw):
+        if isinstance(x, Sym):
+            return self._frexp1(x)
+        arr = np.asarray(x)
+        if arr.dtype != object:
+            return np.frexp(x, *a, **kw)
+        m = np.empty(arr.shape, dtype=object)
+        e = np.empty(arr.shape, dtype=np.int64)
+        fm, fe = m.reshape(-1), e.reshape(-1)
+        for k, el in enumerate(arr.reshape(-1)):
+            fm[k], fe[k] = self._frexp1(el)
+        return m, e
+
+    def ldexp(self, x, k, *a, **kw):
+        arr = np.asarray(x)
+        if not isinstance(x, Sym) and arr.dtype != object:
+            return np.ldexp(x, k, *a, **kw)
+        two = Fraction(2)
+        karr = np.asarray(k)
+        if karr.dtype == object:
+            raise TraceError("ldexp with a symbolic exponent")
+        if isinstance(x, Sym):
+            return x * self._t.const(two ** int(k))
+        xb, kb = np.broadcast_arrays(arr, karr)
+        out = np.empty(xb.shape, dtype=object)
+        fo = out.reshape(-1)
+        for j, (el, kk) in enumerate(zip(xb.reshape(-1), kb.reshape(-1))):
+            fo[j] = self._t.lift(el) * self._t.const(two ** int(kk))
+        return out
+
 
 @contextlib.contextmanager
 def patched_numpy(tracer, prefixes=("polliwog", "vg")):
